@@ -66,7 +66,7 @@ class World:
     PROBES_EXPECTED = ["rejected-run", "rejected-batch-length", "rejected-batch-entry", "rejected-dist", "batch-ok", "run-ok",
                        "dist-exact", "dist-sampled", "wf-ok", "peer-fault-mid-batch", "over-delivery", "tracker-record-ok",
                        "tracker-bitstrings", "tracker-disk-fault", "tracker-after-disk-fault", "multi-segment", "empty-circuit",
-                       "idle-qubits", "symbolic-circuit-refused", "call-after-reject"]
+                       "idle-qubits", "symbolic-circuit-refused", "call-after-reject", "numpy-bit-backend"]
 
     # ------------------------------------------------------------ generation
     def gen_plan(self, seed, tier):
@@ -82,7 +82,7 @@ class World:
                 arg = {"arity": r.choice([1, 2]), "names": r.sample(sorted(gen.BUILTIN), 8), "parity": r.choice([0, 1])}.get(fam)
                 spec = {"kind": "split", "family": fam, "arg": arg, "real_apply": r.random() < 0.5, "seed": r.choice([None, 3])}
             else:
-                spec = {"kind": "shot", "extra": r.choice([0, 0, 1, 5])}
+                spec = {"kind": "shot", "extra": r.choice([0, 0, 1, 5]), "np_bits": r.random() < 0.3}
             runners.append(spec)
             if r.random() < 0.5:
                 runners.append({"kind": "tracker", "inner": len(runners) - 1, "bitstrings": r.random() < 0.5,
@@ -174,6 +174,9 @@ class World:
                     obj = SplitSim(spec["family"], spec["arg"], spec["real_apply"], seed=spec["seed"])
                 elif spec["kind"] == "shot":
                     obj = ShotBackend(extra=spec["extra"])
+                    obj.np_bits = bool(spec.get("np_bits"))
+                    if obj.np_bits:
+                        ctx.probe("numpy-bit-backend")
                 else:
                     inner = runners[spec["inner"]]
                     spy = Spy(inner["obj"])
